@@ -920,11 +920,20 @@ impl Campaign for C17 {
             }
             // all notifications were issued after their publications: the waiter must finish
             let start = Instant::now();
-            let mut spins = 0u64;
+            let mut stable = 0u64;
             while !waiter_done.load(Ordering::Acquire) {
                 std::thread::yield_now();
-                spins += 1;
-                let expired = if cfg!(miri) { spins > 3000 } else { start.elapsed() > Duration::from_millis(1500) };
+                // Miri: no wall clock; the condition "parked although everything was published and
+                // notified" must be observed on many consecutive polls (it is stable once true)
+                let parked_now = obs().parked.iter().any(|p| p.load(Ordering::Relaxed) > 0);
+                if cfg!(miri) {
+                    if parked_now && state.load(Ordering::Acquire) >= target {
+                        stable += 1;
+                    } else {
+                        stable = 0;
+                    }
+                }
+                let expired = if cfg!(miri) { stable > 400 } else { start.elapsed() > Duration::from_millis(1500) };
                 if expired {
                     let parked = obs().parked.iter().any(|p| p.load(Ordering::Relaxed) > 0);
                     if parked && state.load(Ordering::Acquire) >= target {
